@@ -614,6 +614,14 @@ impl Recv {
                             .recv_flow
                             .dec_recv_window(dec)
                             .map_err(proto::Error::library_go_away)?;
+
+                        // Shrinking the window lowers the threshold at which
+                        // released capacity must be advertised. Capacity the
+                        // application released earlier may now be due, and
+                        // nothing else would queue this stream again.
+                        if stream.recv_flow.unclaimed_capacity().is_some() {
+                            self.pending_window_updates.push(&mut stream);
+                        }
                         Ok::<_, proto::Error>(())
                     })?;
                 }
